@@ -49,8 +49,10 @@ type world struct {
 	ifaceBus       []int // per interface: bus index or -1
 	msgBus         []int // per message: bus it is sent on, or -1
 	deep           bool
-	extremeTimings int // timing values at / beyond the declared bounds of the well-known attributes
-	hintOps        int // failing mutators that set and clear an error-context hint
+	deepBus        int  // bus of the deep message (-1: none)
+	multiGroup     bool // a signal inserted into two groups of a multiplexer by two calls, lower group id second
+	extremeTimings int  // timing values at / beyond the declared bounds of the well-known attributes
+	hintOps        int  // failing mutators that set and clear an error-context hint
 	buildOps       int
 	buildErr       int
 	desc           string
@@ -76,7 +78,7 @@ func try(w *world, f func() error) (ok bool) {
 var pow2 = []int{1, 2, 4, 8, 16, 32, 64, 128, 256, 512, 1024}
 
 func buildWorld(r *rng, idx int, allowMux bool) *world {
-	w := &world{}
+	w := &world{deepBus: -1}
 	w.net = acmelib.NewNetwork(fmt.Sprintf("net %d", idx))
 	if r.chance(50) {
 		w.net.SetDesc("network description")
@@ -479,6 +481,16 @@ func (w *world) addDeepNesting(r *rng) bool {
 	if fl, err := acmelib.NewStandardSignal("deep_flag_sig", w.types[0]); err == nil {
 		step(func() error { return outer.InsertSignal(fl, 0, 0) })
 	}
+	// a signal held by SEVERAL groups, put there by several InsertSignal calls with the LOWER group id
+	// second: the stored list of its group ids is not ascending (an exporter that sorted it in place
+	// would write the model)
+	if multi, err := acmelib.NewStandardSignal("deep_multi_group_sig", w.types[0]); err == nil {
+		okMulti := try(w, func() error { return outer.InsertSignal(multi, 30, 1) })
+		okMulti = okMulti && try(w, func() error { return outer.InsertSignal(multi, 30, 0) })
+		if okMulti {
+			w.multiGroup = true
+		}
+	}
 	step(func() error { return msg.AppendSignal(outer) })
 	for _, a := range w.attrs {
 		if a.Type() == acmelib.AttributeTypeString {
@@ -503,6 +515,7 @@ func (w *world) addDeepNesting(r *rng) bool {
 	}
 	w.msgs = append(w.msgs, msg)
 	w.msgBus = append(w.msgBus, niBus)
+	w.deepBus = niBus
 	w.muxes = append(w.muxes, outer, inner)
 	w.sigs = append(w.sigs, outer, inner, es, ss)
 	w.hasMux = true
